@@ -170,6 +170,9 @@ structure Obj where
   vaArea : Option Var
   allocaBottom : Option Var
   body : Node
+  /-- anonymous data (static local, string literal) of a function that is not emitted: `var->owner && !var->owner->is_live`
+      (listed by the dump in `(unemitted …)`; /repo 35df197) -/
+  ownerDead : Bool := false
   deriving Inhabited
 
 structure Program where
@@ -481,10 +484,17 @@ def parseDump (text : String) : Except String Program := do
     let t : Tables := { types, vars := vars.toArray }
     -- pass 3: the members of the prog list, with bodies
     let objArr := objSexps.toArray
+    -- `(unemitted id …)`: data that emit_data() skips (absent in dumps of older trees)
+    let unemitted ← (match rest.filter (headIs "unemitted") with
+      | [.list (_ :: ids)] => ids.mapM asNat
+      | [] => pure []
+      | _ => .error "dump: bad (unemitted ...)")
     let prog ← progIds.mapM fun s => do
       let id ← asNat s
       match objArr[id]? with
-      | some o => asObj t fuel o
+      | some o => do
+        let ob ← asObj t fuel o
+        pure { ob with ownerDead := unemitted.contains id }
       | none => .error s!"dump: prog refers to unknown object {id}"
     let vlaLens ← tys.filterMapM fun (ty, s) => do
       match s with
